@@ -1,0 +1,35 @@
+//go:build verif
+
+// Contracts for the deductive checks under /verif (comment-only; no code).
+
+package mfs
+
+// ---- C19: Mv ---------------------------------------------------------------------
+// identity of a directory in the tree: its absolute path (a function of the object and its parents)
+//@ spec dirPath(d *Directory) string
+//@ func (*Directory).Path
+//@   assumed
+//@   ensures result == dirPath(d)
+//@ func lookupDir
+//@   assumed
+//@   ensures err == nil ==> result0 != nil
+//@ func (*Directory).Child
+//@   assumed
+//@ func (*Directory).AddChild
+//@   assumed
+//@ func (*Directory).Unlink
+//@   assumed
+//@ func iface FSNode.GetNode
+
+// After a successful Mv the source entry is gone unless source and destination are the
+// same entry of the same directory: the only success path that skips the final Unlink
+// must have established exactly that, and the final Unlink removes the source entry.
+//@ func Mv
+//@   prop C19
+//@   arith int
+//@   safety index
+//@   requires[non_empty_dst] len(dst) > 0
+//@   modifies all
+//@   site[skip_unlink_only_for_same_entry] return:nil : dirPath(srcDir) == dirPath(dstDir) && srcFname == dstFname
+//@   site[unlink_the_source] call:Directory.Unlink#1 : arg0 == srcDir && arg1 == srcFname
+//@   site[add_to_destination] call:Directory.AddChild : arg0 == dstDir && arg1 == dstFname && arg2 == nd
